@@ -183,6 +183,33 @@ def apply_perturbation(resp, p):
 # ------------------------------------------------------------------ texts and objects
 
 
+def arg_texts(scenario):
+    """Pristine JSON text per argument; derived arguments borrow from their bases."""
+    args = scenario["args"]
+    texts = {aid: arg_text(ad) for aid, ad in args.items() if "view_of" not in ad and "compose" not in ad}
+    for aid, ad in args.items():
+        if "view_of" in ad:
+            texts[aid] = texts[ad["view_of"]]
+        elif "compose" in ad:
+            texts[aid] = json.dumps({k: json.loads(texts[v]) for k, v in sorted(ad["compose"].items())})
+    return texts
+
+
+def materialise_arg(scenario, texts, aid, get_arg, argdef=None):
+    """A new object for `aid`; derived arguments are built around the objects `get_arg`
+    supplies for their bases, so that the sharing relation holds inside one family of
+    objects (the shared world, a private client's copies, one reference evaluation)."""
+    ad = argdef or scenario["args"][aid]
+    if "view_of" in ad:
+        base = get_arg(ad["view_of"])
+        if isinstance(base, dict):
+            return toggled_envelope(base)  # the SAME inner dict, wrapped or unwrapped
+        return materialise(dict(ad, form="toggle"), texts[aid])
+    if "compose" in ad:
+        return {k: get_arg(v) for k, v in ad["compose"].items()}
+    return materialise(ad, texts[aid])
+
+
 def arg_text(argdef):
     """Pristine JSON text of the logical content of an argument (None for 'bad')."""
     kind = argdef["kind"]
